@@ -175,6 +175,7 @@ class Sched:
         self.preempts = 0
         self.last = None
         self.trace = []
+        self.max_steps = 4000
         self.eager = set()          # threads that run as soon as they can (no scheduling choice): a stated reduction
         del _PENDING[:]
 
@@ -189,6 +190,7 @@ class Sched:
         # (n-1 booleans at most, every combination feasible, no redundant encodings)
         for v in range(n - 1):
             if self.i >= len(self.choices):
+                self.pruned_by = "K"
                 raise Prune()
             with traced():                  # the only place where a solver variable is read
                 b = self.choices[self.i]
@@ -223,12 +225,19 @@ class Sched:
     def run(self):
         results = getattr(self, "results", {})
         live = [t for t in self.threads if t[1] is not None]
+        steps = 0
         while any(not t[3] for t in live):
+            steps += 1
+            self._steps = steps
+            if steps > self.max_steps:
+                # a thread (or a set of threads) keeps running without the non-daemon threads ever finishing
+                raise Deadlock(["livelock: %d steps, last %s" % (steps, "".join(x[0] for x in self.trace[-12:]))])
             runnable = [t for t in live if t[2] is None or (not isinstance(t[2], Timed) and t[2]()) or
                         (isinstance(t[2], Timed) and t[2].ready())]
             if not runnable:
                 # quiescence: time passes, timed waits expire (timeouts have the lowest priority)
                 runnable = [t for t in live if isinstance(t[2], Timed)]
+                self.last = None           # every thread is blocked: whoever's timeout fires first, nobody is preempted
                 self._idle = getattr(self, "_idle", 0) + 1
                 if not runnable or self._idle > 20:
                     raise Deadlock([t[0] for t in live if not t[3]])
@@ -243,6 +252,7 @@ class Sched:
             if self.last is not None and self.last is not t and any(x is self.last for x in runnable):
                 self.preempts += 1
                 if self.max_preempt is not None and self.preempts > self.max_preempt:
+                    self.pruned_by = "P"
                     raise Prune()
             if not t[3] and not isinstance(t[2], Timed):
                 self._idle = 0
@@ -251,7 +261,13 @@ class Sched:
             t[2] = None
             try:
                 req = next(t[1])
-                if req is not None:
+                if req is OTHER:
+                    # voluntary yield of a busy-wait iteration: not runnable again before another thread has taken a step
+                    # (fair scheduling of an effect-free spin); switching away from it is not a preemption
+                    n = steps
+                    t[2] = (lambda n=n: self._steps > n)
+                    self.last = None
+                elif req is not None:
                     t[2] = req
             except StopIteration as s:
                 results[t[0]] = s.value
@@ -262,6 +278,9 @@ class Sched:
                     raise HarnessError(f"stand-in operation {rec[0]} was created by an untransformed caller and never driven")
             del _PENDING[:]
         return results
+
+
+OTHER = object()      # yielded by a stand-in whose real counterpart returns at once inside a polling loop
 
 
 class Timed:
@@ -318,6 +337,9 @@ class HEvent:
     def wait(self, timeout=None):
         def g():
             if timeout is None:
+                if self.flag:
+                    yield OTHER                    # returns at once; a caller polling in a loop must not starve the others
+                    return True
                 yield (lambda: self.flag)
                 return True
             yield Timed(lambda: self.flag)         # resumes when set, or by timeout once nothing else can run
